@@ -136,6 +136,30 @@ def e_arg_default(rng, d):
     return n, {"FieldArgumentDefaultValueChange"}, {"FieldArgumentDefaultValueChange"}, a["name"]
 
 
+def e_null_default(rng, d):
+    """add (fwd) / remove (rev) an explicit `= null` default on a nullable argument, input field or directive argument"""
+    n = copy.deepcopy(d)
+    cands = []
+    for t in _objs(n):
+        for f in _own_fields(n, t):
+            for a in f["args"]:
+                if a["type"][0] != "nonNull" and a.get("default") is None:
+                    cands.append(("FieldArgumentDefaultValueChange", a))
+    for t in _objs(n, ("input",)):
+        for f in t["fields"]:
+            if f["type"][0] != "nonNull" and f.get("default") is None:
+                cands.append(("InputFieldDefaultValueChange", f))
+    for dd in n["directives"]:
+        for a in dd["args"]:
+            if a["type"][0] != "nonNull" and a.get("default") is None:
+                cands.append(("DirectiveArgumentDefaultValueChange", a))
+    if not cands:
+        return None
+    cls, a = rng.choice(cands)
+    a["default"] = "null"
+    return n, {cls}, {cls}, a["name"]
+
+
 def e_add_input_field(rng, d):
     n = copy.deepcopy(d)
     t = rng.choice(_objs(n, ("input",)))
@@ -299,7 +323,7 @@ def e_change_kind(rng, d):
     return n, {"TypeChangedKind"}, {"TypeChangedKind"}, name, None, o
 
 
-EDITS = [e_add_type, e_add_field, e_retype_field, e_add_arg, e_retype_arg, e_arg_default, e_add_input_field,
+EDITS = [e_add_type, e_add_field, e_retype_field, e_add_arg, e_retype_arg, e_arg_default, e_null_default, e_add_input_field,
          e_retype_input_field, e_add_enum_value, e_enum_deprecation, e_field_deprecation, e_union_member,
          e_implement_interface, e_add_directive, e_directive_location, e_directive_arg, e_retype_directive_arg,
          e_change_kind]
@@ -498,6 +522,11 @@ def _run(ctx):
         ctx.count()
         for sig, what in one_case(ctx, seed):
             ctx.fail(sig, what, {"schema_case_seed": seed, "what": what})
+        if i % 5 == 0:
+            for sig, what in code_enum_case(ctx, seed):
+                ctx.fail(sig, what, {"code_enum_seed": seed, "what": what})
+            for sig, what in history_case(ctx, seed):
+                ctx.fail(sig, what, {"history_seed": seed, "what": what})
         if i < 2:
             import random
             rng = random.Random(seed)
@@ -505,9 +534,185 @@ def _run(ctx):
             ctx.sample({"schema_case_seed": seed, "sdl_head": gs.to_sdl(d)[:300]})
 
 
+# ---------------------------------------------------------------------------
+# code-built enums (internal Python values differ from the names)
+# ---------------------------------------------------------------------------
+
+def build_with_code_enums(desc, value_of):
+    """Build `desc` with every enum supplied as a CODE-BUILT EnumType (additional_types) whose internal values
+    are `value_of(enum name, value name)`; everything else comes from SDL."""
+    from py_gql import build_schema
+    from py_gql.schema import EnumType, EnumValue
+    enums = [t for t in desc["types"] if t["kind"] == "enum"]
+    rest = dict(desc, types=[t for t in desc["types"] if t["kind"] != "enum"])
+    extra = [EnumType(t["name"], [EnumValue(v["name"], value_of(t["name"], v["name"]), deprecation_reason=v.get("deprecated"),
+                                            description=v.get("desc")) for v in t["values"]], description=t.get("desc"))
+             for t in enums]
+    return build_schema(gs.to_sdl(rest), additional_types=extra)
+
+
+def strip_enum_defaults(d):
+    """enum-typed defaults would be coerced to internal values by name: keep the case simple"""
+    d = copy.deepcopy(d)
+    enums = {t["name"] for t in d["types"] if t["kind"] == "enum"}
+    users = set(enums)
+    changed = True
+    while changed:
+        changed = False
+        for t in _objs(d, ("input",)):
+            if t["name"] not in users and any(gs.ty_base(f["type"]) in users for f in t["fields"]):
+                users.add(t["name"])
+                changed = True
+    for t in d["types"]:
+        for f in t.get("fields", []):
+            if t["kind"] == "input" and gs.ty_base(f["type"]) in users:
+                f["default"] = None
+            for a in f.get("args", []) or []:
+                if gs.ty_base(a["type"]) in users:
+                    a["default"] = None
+    for dd in d["directives"]:
+        for a in dd["args"]:
+            if gs.ty_base(a["type"]) in users:
+                a["default"] = None
+    return d
+
+
+def diff_live(o, n):
+    from py_gql.schema.differ import diff_schema
+    return sorted((type(c).__name__, int(c.severity), str(c.message)) for c in diff_schema(o, n))
+
+
+def code_enum_case(ctx, seed):
+    """enum members must be matched BY NAME: internal values are not part of the client-visible schema"""
+    import random
+    rng = random.Random(seed)
+    d = strip_enum_defaults(gs.gen_schema(rng, size=rng.randint(1, 3)))
+    fails = []
+    v1 = lambda e, v: "py_" + v            # noqa: E731
+    v2 = lambda e, v: hash_free(e, v)       # noqa: E731
+    try:
+        a, b = build_with_code_enums(d, v1), build_with_code_enums(d, v2)
+    except Exception as e:  # noqa
+        ctx.stat("code-enum-build-skipped:" + type(e).__name__)
+        return fails
+    ctx.stat("code-enum-case")
+    same = diff_live(a, b)
+    if same:
+        fails.append(("code-enum:structurally-equal-but-values-differ:reported", "schemas equal up to enum INTERNAL values reported %s" % (same[:2],)))
+    # rename one enum value keeping its internal value: must be EnumValueRemoved (BREAKING) + EnumValueAdded
+    enums = [t for t in d["types"] if t["kind"] == "enum"]
+    n = copy.deepcopy(d)
+    referenced = [t for t in n["types"] if t["kind"] == "enum" and t["name"] in a.types]
+    if not referenced:
+        ctx.stat("code-enum-unreferenced")
+        return fails
+    t = rng.choice(referenced)
+    old_name = t["values"][0]["name"]
+    t["values"][0]["name"] = "RENAMED_" + old_name
+    keep = lambda e, v: "py_" + (old_name if v == "RENAMED_" + old_name else v)  # noqa: E731
+    try:
+        c = build_with_code_enums(n, keep)
+    except Exception as e:  # noqa
+        ctx.stat("code-enum-build-skipped:" + type(e).__name__)
+        return fails
+    ch = diff_live(a, c)
+    if not any(x[0] == "EnumValueRemoved" and old_name in x[2] and x[1] == BREAKING for x in ch):
+        fails.append(("code-enum:renamed-value-not-reported-removed", "enum value %s renamed (same internal value) but no BREAKING EnumValueRemoved: %s" % (old_name, ch[:3])))
+    # swapped internal values between two names + a deprecation on one of them: attributed to the right member
+    if len(t["values"]) >= 2:
+        m = copy.deepcopy(d)
+        tt = gs.desc_type(m, t["name"])
+        x, y = tt["values"][0]["name"], tt["values"][1]["name"]
+        if tt["values"][0].get("deprecated") is None:
+            tt["values"][0]["deprecated"] = "because"
+            swap = lambda e, v: "py_" + (y if v == x else x if v == y else v)  # noqa: E731
+            try:
+                e2 = build_with_code_enums(m, swap)
+                ch = diff_live(a, e2)
+                dep = [c for c in ch if c[0] == "EnumValueDeprecated"]
+                if not (len(dep) == 1 and x in dep[0][2]):
+                    fails.append(("code-enum:deprecation-attributed-to-wrong-member", "deprecating %s (internal values swapped) reported as %s" % (x, dep[:2])))
+            except Exception as e:  # noqa
+                ctx.stat("code-enum-build-skipped:" + type(e).__name__)
+    return fails
+
+
+def hash_free(e, v):
+    return sum(ord(c) for c in e + v) * 7 + len(v)
+
+
+# ---------------------------------------------------------------------------
+# histories: the report must not depend on what was diffed / executed / cloned before
+# ---------------------------------------------------------------------------
+
+def history_case(ctx, seed):
+    import random
+    from py_gql import build_schema
+    rng = random.Random(seed)
+    d = gs.gen_schema(rng, size=rng.randint(1, 3))
+    fails = []
+    objs = [t for t in _objs(d) if len(_own_fields(d, t)) >= 1 and len(t["fields"]) >= 2]
+    if not objs:
+        return fails
+    t = rng.choice(objs)
+    victim = rng.choice(_own_fields(d, t))["name"]
+    n = copy.deepcopy(d)
+    nt = gs.desc_type(n, t["name"])
+    nt["fields"] = [f for f in nt["fields"] if f["name"] != victim]
+    try:
+        reference = diff_live(build_schema(gs.to_sdl(d)), build_schema(gs.to_sdl(n)))
+    except Exception as e:  # noqa
+        ctx.stat("history-skipped:" + type(e).__name__)
+        return fails
+    ctx.stat("history-case")
+    flows = []
+
+    def flow_diff_then_edit():
+        a, b = build_schema(gs.to_sdl(d)), build_schema(gs.to_sdl(d))
+        diff_live(a, b)                                   # reads every field map once
+        ty = b.types[t["name"]]
+        ty.fields = [f for f in ty.fields if f.name != victim]   # public `fields` setter
+        return diff_live(a, b)
+
+    def flow_use_clone_edit():
+        a = build_schema(gs.to_sdl(d))
+        diff_live(a, build_schema(gs.to_sdl(d)))
+        b = a.clone()
+        ty = b.types[t["name"]]
+        ty.fields = [f for f in ty.fields if f.name != victim]
+        return diff_live(a, b)
+
+    def flow_transform():
+        from py_gql.schema.transforms import VisibilitySchemaTransform, transform_schema
+
+        class Hide(VisibilitySchemaTransform):
+            def is_field_visible(self, typename, fieldname):
+                return not (typename == t["name"] and fieldname == victim)
+        a = build_schema(gs.to_sdl(d))
+        diff_live(a, build_schema(gs.to_sdl(d)))
+        return diff_live(a, transform_schema(a, Hide()))
+
+    for name, fl in (("diff-then-edit", flow_diff_then_edit), ("use-clone-edit", flow_use_clone_edit), ("visibility-transform", flow_transform)):
+        try:
+            got = fl()
+        except Exception as e:  # noqa
+            ctx.stat("history-flow-skipped:%s:%s" % (name, type(e).__name__))
+            continue
+        ctx.nontrivial(("history", name, seed))
+        if got != reference:
+            missing = [c for c in reference if c not in got]
+            fails.append(("history-dependent:%s" % name,
+                          "diff after %s differs from the diff of freshly built schemas; missing %s" % (name, missing[:2])))
+    return fails
+
+
 def replay(ctx, data):
     inp = data.get("input", {})
     ctx.pending_model = []
+    if "code_enum_seed" in inp:
+        return not code_enum_case(ctx, inp["code_enum_seed"])
+    if "history_seed" in inp:
+        return not history_case(ctx, inp["history_seed"])
     if "schema_case_seed" in inp:
         fails = one_case(ctx, inp["schema_case_seed"])
         return not fails
